@@ -86,7 +86,7 @@ CHECKS = {
  "C16": ("4/C16",
          "stateless model checking of the real List/ErasedList/RawList code: controlled scheduler over real OS threads, all interleavings up to a preemption bound at lock-acquisition / element-pointer-use granularity (exact blocking via try_lock probe), with stale-pointer, lockset, deadlock and brute-force linearizability oracles",
          "All programs of 2 threads x 2 operations over a 10-operation menu (thorough: 17 operations unbounded, plus 2x3 and 3x2 shapes at bound 3) on two colliding lists, one pre-filled to capacity so that a push relocates, in both address orders of the two lists; for each program EVERY schedule with at most 2 preemptions is executed on the real code. Each execution is checked for use of an element pointer whose buffer generation changed (deterministic use-after-free detector), element reads outside the critical section (lockset probe), deadlock (no enabled thread), linearizability of the recorded call/return history against the Vec model (brute force) and final contents.",
-         "Schedule points exist only where hook lines are (a lint fails the check with exit 2 when a .lock() in list.rs has no hook line before it); sequentially consistent interleavings only (no weak-memory effects); Arc reference counting trusted."),
+         "Schedule points exist only where hook lines are (a lint fails the check with exit 2 when a .lock() in list.rs has no hook line before it); sequentially consistent interleavings only (no weak-memory effects); Arc reference counting trusted. Two threads wrongly admitted into one critical section (a lock that became shared) never overlap under a lock-granularity scheduler: for that class only, a supplementary free-running pass (28 cases x 4 unscheduled OS threads, invariants of every linearizable execution; sampling, labelled exhaustive=false, not counted in states) runs after the exhaustive part."),
 }
 
 NOT_YET = {
